@@ -71,7 +71,9 @@ def event_term(lf):
     """The epoll event of this loop iteration: payload of Iterator::next on the events slice."""
     for (t, c, _b) in lf.conds:
         if t[0] == "discr" and is_call(look(t[1]), "next") and option_is_some(c):
-            return look(t[1])
+            # the iterator over what Epoll::wait filled in, not some other loop of the function
+            if any(isinstance(s_, tuple) and s_ and (s_[0] == "repeat" or (s_[0] == "call" and s_[1] == "vmm_sys_util::epoll::Epoll::wait")) for s_ in subterms(t[1])):
+                return look(t[1])
     return None
 
 
@@ -164,4 +166,31 @@ def from_fn_drains(facts, lf, consumers):
                         good = good and is_call(look(l2.ret()), P + "pop_parsed_request")
                     if good:
                         return e
+    return None
+
+
+def dead_sweep(facts, lf):
+    """The sweep written in two steps: dead = connections.iter().filter(|(_, c)| c.is_done()).map(|(fd, _)| *fd).collect();
+    for fd in dead { epoll_del(fd); connections.remove(&fd) }.  Returns the collect term if this path builds such a list."""
+    from .conn import P
+    for e in lf.events:
+        if e[0] != "call" or last_seg(e[3]) != "collect":
+            continue
+        it = look(e[4][2][0])
+        clos = []
+        while it[0] == "call" and last_seg(it[1]) in ("map", "filter", "copied", "cloned", "filter_map") and it[2]:
+            if len(it[2]) == 2:
+                clos.append((last_seg(it[1]), look(it[2][1])))
+            it = look(it[2][0])
+        if not (is_call(it, "iter", "keys") and it[2] and look(it[2][0])[0] == "field" and look(it[2][0])[3] == "connections"):
+            continue
+        filt = [c for k, c in clos if k == "filter"]
+        if len(filt) != 1 or filt[0][0] != "closure" or filt[0][1] not in facts.fns:
+            continue
+        good = True
+        for l2 in PathEnum(facts.fns[filt[0][1]], facts).run():
+            r = look(l2.ret())
+            good = good and is_call(r, CC + "is_done")
+        if good:
+            return e[4]
     return None
